@@ -172,5 +172,12 @@ def stepOp (b : SBag) : Op → Option SBag × String
     if b.alphabet != NUCLEOTIDS then (some b, "err") else
     if b.rows.any (fun r => r.2.any fun c => (complementByte c).isNone) then (none, "err") else
     (some { b with rows := b.rows.map fun r => (r.1, (r.2.map fun c => (complementByte c).getD c).reverse) }, "ok")
+  | .replaceChar name site c =>
+    -- overwrites the residue at position `site` of the sequence called `name` (the first one of that name,
+    -- as every by-name access); an error, nothing changed, for a site outside the alignment or an unknown name
+    if !b.isAlign then (some b, "na") else
+    if site < 0 || site ≥ b.length then (some b, "err") else
+    if (firstNamed name b.rows).isNone then (some b, "err") else
+    (some { b with rows := updateFirst name (fun s => s.set site.toNat c) b.rows }, "ok")
 
 end Gv.Spec
